@@ -239,6 +239,9 @@ def run(chk):
                 ex.append({"ent": cf["f"], "perm": list(p), "x": cf["x"], "w": w, "c": c0, "oracle": False, "tag": f"renum:{ci}"})
         items.append({"builder": "harness.checks.c03.build", "fam": (cell, ek, kind), "seed": chk.seed + fi, "scalar": "float64",
                       "explicit": ex, "label": f"{cell}/{ek}/{kind}"})
+    # S7: the table pipeline with injected tables, permutation dimension (interior facets, facet expressions)
+    from .. import s7
+    chk.add(s7=s7.run_tables(chk, "perm"))
     recs = s5.run_items(chk, items, nworkers=4 if quick else 6)
     nz = s5.report(chk, items, recs)
     # ---- judge invariance
